@@ -291,7 +291,7 @@ def scenario_q(mode='pass'):
     wt = threading.Thread(target=watcher, name='watcher')
 
     @h.measures(h.Measurement('m'), h.Measurement('m2'), h.Measurement('m3'),
-                h.Measurement('mt').with_transform(lambda x: x * 1000.0))
+                h.Measurement('mt').with_transform(lambda x: x * 1000.0), h.Measurement('md').with_dimensions('i'))
     def p1(test):
       wt.start()
       attached.wait()
@@ -304,6 +304,10 @@ def scenario_q(mode='pass'):
       test.measurements.mt = 0.001      # recorded (after the transform) as 1.0
       time.sleep(0.3)
       test.measurements.mt = 1.0        # an override whose raw value equals the recorded one: now 1000.0 is recorded
+      time.sleep(0.5)
+      test.measurements.md[0] = 1       # first point of a dimensioned measurement
+      time.sleep(0.3)
+      test.measurements.md[1] = 2       # ... and a further point: a change like any other
       time.sleep(0.5)
 
     def p2(test):
